@@ -323,3 +323,15 @@ Definition chain_serve (acl : ipset) (views : list (ipset * list vrec)) (r : rem
   | AclDrop => CDrop
   | AclNext => match views_serve views r qname qtype with VAnswer i l => CView i l | VNext => CResolve end
   end.
+
+(* -------- a resolver-internal sub-query as a walk (session 5): Queryer.Query binds a chain over the internal
+   sub-pipeline autoWire built for it (via 0: the queryer's = the handler order minus the ClientOnly handlers;
+   via 1: the prefetch queryer's = that minus the cache) to the sub-query writer and runs it. *)
+Definition sub_order (order : list (list N)) (via : N) : list (list N) :=
+  if via =? 0 then queryer_sub order else prefetch_sub order.
+Definition subquery_walk (order : list (list N)) (via : N) (acl : ipset) (views : list (ipset * list vrec))
+           (qname : list N) (qtype : N) : chain_outcome :=
+  chain_walk (sub_order order via) acl views subquery_remote qname qtype.
+(* a pipeline that holds neither the access list nor views *)
+Definition policy_free (order : list (list N)) : bool :=
+  forallb (fun h => negb (name_eqb h n_h_accesslist) && negb (name_eqb h n_h_views)) order.
